@@ -6,7 +6,7 @@
 -/
 import DymVerif.Lemmas.CoreLevWalk
 import DymVerif.Lemmas.CoreLiveness
-namespace DymVerif.Core
+namespace DymVerif.Core.LevNs
 
 -- ---------------------------------------------------------------- inserting a fresh rollapp
 
@@ -619,4 +619,4 @@ theorem run_fut (p : Params) (hI : 1 ≤ p.lsInterval) (ops : List Op) (hb : Blo
     | true => exact this
     | false => exact Fut.weaken this
 
-end DymVerif.Core
+end DymVerif.Core.LevNs
